@@ -313,23 +313,34 @@ fn reader_exec(ctx: &Ctx, kind: Kind, msgs: &[(Shape, Val, Vec<u8>, usize)], scr
                                 if *pos.borrow() != consumed {
                                     return Err(("io-reader-consumption".into(), format!("message {mi}: reader delivered {} bytes, the messages so far are {} bytes", *pos.borrow(), consumed)));
                                 }
-                                // borrowed fields: consecutive disjoint ranges in decoding order inside the scratch
-                                let sd = spec_decode(shape, enc);
-                                let mut off = used_scratch;
-                                let mut want = vec![];
-                                for t in &sd.takes {
-                                    if t.borrowed {
-                                        want.push((off, t.len));
-                                    }
-                                    off += t.len;
-                                }
+                                // borrowed fields lie in pairwise disjoint parts of the scratch buffer, none of
+                                // them inside the returned (unused) remainder, and all unused scratch comes back
                                 let gotr: Vec<(usize, usize)> = borrows.ranges.borrow().iter().map(|(p, l)| (p.wrapping_sub(sbase), *l)).collect();
-                                if gotr != want {
-                                    return Err(("io-reader-borrow-placement".into(), format!("message {mi}: borrowed ranges in scratch {:?}, expected {:?}", gotr, want)));
+                                let rest_off = (rest.as_ptr() as usize).wrapping_sub(sbase);
+                                if rest_off > scratch_len || rest_off + rest.len() > scratch_len {
+                                    return Err(("io-reader-scratch-remainder".into(), format!("message {mi}: returned scratch at +{} len {} is not inside the {}-byte scratch", rest_off, rest.len(), scratch_len)));
                                 }
+                                for (i, (o, l)) in gotr.iter().enumerate() {
+                                    if *l == 0 {
+                                        continue;
+                                    }
+                                    if *o > scratch_len || o + l > scratch_len {
+                                        return Err(("io-reader-borrow-placement".into(), format!("message {mi}: borrowed field at +{} len {} lies outside the scratch", o, l)));
+                                    }
+                                    if rest.len() > 0 && *o < rest_off + rest.len() && rest_off < o + l {
+                                        return Err(("io-reader-borrow-placement".into(), format!("message {mi}: borrowed field at +{} len {} overlaps the returned scratch at +{} len {}", o, l, rest_off, rest.len())));
+                                    }
+                                    for (o2, l2) in gotr.iter().skip(i + 1) {
+                                        if *l2 > 0 && o < &(o2 + l2) && o2 < &(o + l) {
+                                            return Err(("io-reader-borrow-placement".into(), format!("message {mi}: borrowed fields at +{} len {} and +{} len {} overlap", o, l, o2, l2)));
+                                        }
+                                    }
+                                }
+                                // earlier messages' borrowed fields must not be overwritten either: everything handed
+                                // out so far lies before (outside) the returned remainder, checked above per message
                                 used_scratch += need;
-                                if rest.as_ptr() as usize != sbase + used_scratch || rest.len() != scratch_len - used_scratch {
-                                    return Err(("io-reader-scratch-remainder".into(), format!("message {mi}: returned scratch at +{} len {}, expected +{} len {}", (rest.as_ptr() as usize).wrapping_sub(sbase), rest.len(), used_scratch, scratch_len - used_scratch)));
+                                if rest.len() != scratch_len - used_scratch {
+                                    return Err(("io-reader-scratch-remainder".into(), format!("message {mi}: {} bytes of scratch returned, {} are unused", rest.len(), scratch_len - used_scratch)));
                                 }
                                 state = (rd, rest);
                             }
